@@ -52,6 +52,7 @@ pub fn all() -> Vec<(&'static str, fn())> {
 	v.extend_from_slice(c04_action::LIST);
 	v.extend_from_slice(c04_map::LIST);
 	v.extend_from_slice(c06_remap::LIST);
+	v.extend_from_slice(c06_remap::inherit_proofs::LIST);
 	v.extend_from_slice(c09_kernels::LIST);
 	v.extend_from_slice(c11_inner::LIST);
 	v.extend_from_slice(c14_nest::LIST);
